@@ -2,6 +2,15 @@
 // everything and a filter that fails to evaluate counts as not matching".  Second decider next to Verus unit `rules`
 // (Kani compiles the real std combinators, so refactorings Verus cannot parse are still decided).  Loop-free.
 #![allow(dead_code, unused_variables, unused_macros, static_mut_refs, unused_imports, unused_mut)]
+// `tracing::level!(..)` written with its path by an edit keeps compiling (log statements have no effect on the checks)
+pub mod tracing {
+    macro_rules! trace { ($($t:tt)*) => { () } }
+    macro_rules! debug { ($($t:tt)*) => { () } }
+    macro_rules! info { ($($t:tt)*) => { () } }
+    macro_rules! warn_ { ($($t:tt)*) => { () } }
+    macro_rules! error { ($($t:tt)*) => { () } }
+    pub(crate) use {trace, debug, info, warn_ as warn, error};
+}
 macro_rules! trace { ($($t:tt)*) => { () } }
 use std::sync::atomic::{AtomicU64, Ordering};
 
